@@ -46,10 +46,20 @@ fn enc(e: Enc, n: i64) -> Value {
     }
 }
 
-const THRESH: [Option<i64>; 5] = [None, Some(0), Some(49), Some(50), Some(51)];
-const ACTOR: [Option<i64>; 6] = [None, Some(-1), Some(0), Some(49), Some(50), Some(51)];
-const TARGETL: [Option<i64>; 4] = [None, Some(49), Some(50), Some(51)];
-const UDEF: [Option<i64>; 3] = [None, Some(-1), Some(50)];
+/// level menus; the thorough tier adds a negative threshold, 100 (the creator's default level) and more targets
+fn menus(thorough: bool) -> (Vec<Option<i64>>, Vec<Option<i64>>, Vec<Option<i64>>, Vec<Option<i64>>) {
+    let mut thresh = vec![None, Some(0), Some(49), Some(50), Some(51)];
+    let mut actor = vec![None, Some(-1), Some(0), Some(49), Some(50), Some(51)];
+    let mut target = vec![None, Some(49), Some(50), Some(51)];
+    let mut udef = vec![None, Some(-1), Some(50)];
+    if thorough {
+        thresh.extend([Some(-1), Some(100)]);
+        actor.push(Some(100));
+        target.extend([Some(0), Some(100)]);
+        udef.push(Some(0));
+    }
+    (thresh, actor, target, udef)
+}
 
 #[derive(Clone, Debug)]
 struct Case {
@@ -333,16 +343,19 @@ fn encs(v: u8) -> Vec<Enc> {
     }
 }
 
-fn for_cases(v: u8, family: &'static str, f: &mut dyn FnMut(Case)) {
+fn for_cases(v: u8, family: &'static str, thorough: bool, f: &mut dyn FnMut(Case)) {
+    let (thresh, actor, targetl, udefs) = menus(thorough);
+    #[allow(non_snake_case)]
+    let (THRESH, ACTOR, TARGETL, UDEF) = (&thresh, &actor, &targetl, &udefs);
     for e in encs(v) {
         match family {
             "user-actions" => {
-                for ban in THRESH {
-                    for kick in THRESH {
-                        for invite in THRESH {
-                            for udef in UDEF {
-                                for a in ACTOR {
-                                    for tl in TARGETL {
+                for ban in THRESH.iter().copied() {
+                    for kick in THRESH.iter().copied() {
+                        for invite in THRESH.iter().copied() {
+                            for udef in UDEF.iter().copied() {
+                                for a in ACTOR.iter().copied() {
+                                    for tl in TARGETL.iter().copied() {
                                         let pl = Pl::default()
                                             .field("ban", ban.map(|n| enc(e, n)))
                                             .field("kick", kick.map(|n| enc(e, n)))
@@ -360,10 +373,10 @@ fn for_cases(v: u8, family: &'static str, f: &mut dyn FnMut(Case)) {
                 }
             }
             "send" => {
-                for ed in THRESH {
-                    for sd in THRESH {
-                        for udef in UDEF {
-                            for a in ACTOR {
+                for ed in THRESH.iter().copied() {
+                    for sd in THRESH.iter().copied() {
+                        for udef in UDEF.iter().copied() {
+                            for a in ACTOR.iter().copied() {
                                 for (ety, el) in [(None, None), (Some("m.room.message"), Some(50)), (Some("m.room.name"), Some(50)), (Some("x.custom"), Some(49)), (Some("m.reaction"), Some(51)), (Some("m.room.power_levels"), Some(51)), (Some("m.room.power_levels"), Some(0))] {
                                     let pl = Pl::default()
                                         .field("events_default", ed.map(|n| enc(e, n)))
@@ -379,8 +392,8 @@ fn for_cases(v: u8, family: &'static str, f: &mut dyn FnMut(Case)) {
                 }
             }
             "for-user" => {
-                for udef in UDEF {
-                    for a in ACTOR {
+                for udef in UDEF.iter().copied() {
+                    for a in ACTOR.iter().copied() {
                         for other in [None, Some(70)] {
                             let pl = Pl::default()
                                 .field("users_default", udef.map(|n| enc(e, n)))
@@ -392,9 +405,9 @@ fn for_cases(v: u8, family: &'static str, f: &mut dyn FnMut(Case)) {
                 }
             }
             "notifications" => {
-                for room in THRESH {
-                    for udef in UDEF {
-                        for a in ACTOR {
+                for room in THRESH.iter().copied() {
+                    for udef in UDEF.iter().copied() {
+                        for a in ACTOR.iter().copied() {
                             let pl = Pl::default()
                                 .field("users_default", udef.map(|n| enc(e, n)))
                                 .user(SENDER, a.map(|n| enc(e, n)))
@@ -436,12 +449,14 @@ fn main() {
     report.assume("string levels from v10 are outside the property's quantifier (the auth rules reject the whole power_levels event)");
     report.require_outcomes("agree", 2);
 
+    let thorough = args.tier.is_thorough();
+    report.set("level_menus", json!(if thorough { "thresholds {absent,-1,0,49,50,51,100}, actor {absent,-1,0,49,50,51,100}, target {absent,0,49,50,51,100}, users_default {absent,-1,0,50}" } else { "thresholds {absent,0,49,50,51}, actor {absent,-1,0,49,50,51}, target {absent,49,50,51}, users_default {absent,-1,50}" }));
     let fams = ["user-actions", "send", "for-user", "notifications"];
     let shards: Vec<(u8, &'static str)> = (3..=11u8).flat_map(|v| fams.iter().map(move |f| (v, *f))).collect();
     par_shards(&report, shards.len(), |i, t| {
         let (v, fam) = shards[i];
         let mut n = 0u64;
-        for_cases(v, fam, &mut |case| {
+        for_cases(v, fam, thorough, &mut |case| {
             n += 1;
             t.states += 1;
             if n % 2003 == 1 {
